@@ -512,6 +512,12 @@ class TypeMap:
             if m and m.group(1) in ASSOC_ITERS:
                 inner = self.c(parse(first_targ(m.group(2))))
                 return inner + ("*" if m.group(3) != "value_type" else "")
+        if last in ("value_type", "pointer", "const_pointer") and "<" in name:
+            # member types of std::array / the sequence containers: the element type (first template argument) / pointer to it
+            m = re.match(r"(?:.*?::)?([A-Za-z_]\w*)<(.*)>::(value_type|pointer|const_pointer)$", name)
+            if m and (m.group(1) == "array" or m.group(1) in SEQS):
+                inner = self.c(parse(first_targ(m.group(2))))
+                return inner + ("*" if m.group(3) != "value_type" else "")
         if last in ("reference", "const_reference", "value_type", "_Self", "pointer", "mapped_type", "key_type"):
             raise Unsupported("dependent member type %s (no desugared form)" % name)
         # class type
